@@ -292,6 +292,16 @@ class Host(HostBase):
                 raise self.unsupported(node, f"symbolic index {idx!r} into concrete sequence of {n}")
             raise self.raise_("TypeError", f"sequence indices must be integers, not {idx!r}", node)
         if isinstance(v, PyDict):
+            if isinstance(idx, SymChar):
+                fx = self.ctx.char_fixed.get(idx.id)
+                if fx is not None:
+                    idx = Const(fx)
+                else:
+                    for k in sorted(v.items, key=repr):
+                        kav = v.keys_av[k]
+                        if isinstance(kav, Const) and isinstance(kav.value, str) and len(kav.value) == 1 and self.char_is(idx, kav.value):
+                            return v.items[k]
+                    raise self.raise_("KeyError", repr(idx), node)
             try:
                 hk = hkey(idx)
             except Unsupported:
@@ -392,6 +402,8 @@ class Host(HostBase):
                 v.children[key] = self.i.new_opaque(f"{v.label}{key}", eh.ci if isinstance(eh, ClassV) else None)
             return v.children[key]
         if isinstance(v, Term):
+            if self.is_strlike(v) and isinstance(idx, SliceV):
+                return Term("strslice", (v, idx.start, idx.stop, idx.step), self.ctx.new_id())
             return Term("getitem", (v, idx), self.ctx.new_id())
         if isinstance(v, Source):
             if isinstance(idx, SliceV):
@@ -567,7 +579,7 @@ class Host(HostBase):
             return isinstance(v.value, str)
         if isinstance(v, (SymStr, SymChar)):
             return True
-        if isinstance(v, Term) and v.op in ("concat", "fstr", "str", "repr", "strmeth", "join", "canonical", "json.dumps"):
+        if isinstance(v, Term) and v.op in ("concat", "fstr", "str", "repr", "strmeth", "join", "canonical", "json.dumps", "strslice"):
             return True
         if isinstance(v, Sym):
             return self.i.kind_of(v) == "str"
@@ -589,6 +601,8 @@ class Host(HostBase):
             if all(isinstance(p, Const) for p in parts):
                 return Const("[" + ", ".join(p.value for p in parts) + "]")  # type: ignore[union-attr]
         if isinstance(v, (SymStr, SymChar)) and not repr_:
+            return v
+        if isinstance(v, Term) and not repr_ and self.is_strlike(v):
             return v
         return Term("repr" if repr_ else "str", (v,), self.ctx.new_id())
 
